@@ -1,10 +1,11 @@
 """C13 helpers (specification side, not verified): raw-state snapshots, normalised derived views of a molecule, and the
 independent rebuild with stereo labels carried over by a permutation-parity oracle.
 
-`VIEWS` maps a view name to a function molecule -> comparable value.  Views are normalised so that they do not depend on the
-insertion order of atoms and bonds (the rebuilt molecule is built in another insertion order): rings are compared as sets of
-atom sets, neighbour tuples as sets.  An exception raised while computing a view is part of the value (`('EXC', class name)`):
-`brutto` of a molecule with an undefined hydrogen count raises TypeError on both sides.
+`VIEWS` maps a view name to a function molecule -> comparable value.  The rebuilt molecule reproduces the insertion order of the
+atoms and of every neighbour dict (`rebuild_ordered`), because the library breaks ties by insertion order (ring-closure placement
+in a Kekule SMILES, choice among equally small rings); views are nevertheless compared as sets where order carries no meaning.
+An exception raised while computing a view is part of the value (`('EXC', class name)`): `brutto` of a molecule with an undefined
+hydrogen count raises TypeError on both sides.
 """
 
 
